@@ -1,11 +1,11 @@
 #!/bin/bash
 # usage: kill_seeded.sh <seeded dir> <tier> <check id>...  (uses the isolated copy made by kill_env.sh)
-D=$1; TIER=$2; shift 2
-cd /tmp/krepo || exit 3
+S=${KILL_ENV:-}; D=$1; TIER=$2; shift 2
+cd /tmp/krepo$S || exit 3
 git checkout -q -- . 
 git apply $D/patch.diff || { echo "PATCH-DOES-NOT-APPLY $D"; exit 3; }
 for id in "$@"; do
-  OUT=$(cd /tmp/kv && PVMON_REPO=/tmp/krepo PVMON_SKIP_MIRI=1 ./check $id $TIER 2>&1)
+  OUT=$(cd /tmp/kv$S && PVMON_REPO=/tmp/krepo$S PVMON_SKIP_MIRI=1 ./check $id $TIER 2>&1)
   CODE=$?
   echo "[$(basename $D)] $id $TIER exit=$CODE :: $(echo "$OUT" | grep -E "verdict=" | tail -1)"
   echo "$OUT" | grep -E "monitor=" | head -2 | cut -c1-260
